@@ -107,6 +107,24 @@ def sym_sink():
     return SymSink()
 
 
+PARAMS = set()
+
+
+def applied_params(value, found):
+    """Hyper-parameters (as JSON text) under which stateful actors were APPLIED inside a raw value."""
+    if isinstance(value, (tuple, list)):
+        for x in value:
+            applied_params(x, found)
+        return
+    if not isinstance(value, dict):
+        return
+    args = value.get('args', ())
+    if value.get('tag') == 'app' and len(args) > 1 and isinstance(args[1], dict) and args[1].get('tag') == 'st':
+        found.add(args[0]['label'])
+    for a in args[2:] if value.get('tag') == 'app' else args:
+        applied_params(a, found)
+
+
 def rec_runner(out):
     from forml import flow, runtime
     from harness import graphs, refinterp
@@ -118,6 +136,9 @@ def rec_runner(out):
         def run(cls, symbols, **kwargs):
             values = refinterp.run(symbols)
             out.extend(graphs.norm(v) for ins, v in values.items() if isinstance(ins, flow.Functor))
+            for ins, v in values.items():
+                if isinstance(ins, flow.Functor):
+                    applied_params(v, PARAMS)
 
     return RecRunner
 
@@ -169,14 +190,22 @@ def step(registry_root, op, generation, window='none'):
     values = []
     feed = sym_feed()
     sink = sym_sink()
+    # the hyper-parameters of the code as it is NOW (a training commits its own, a later load runs with the current ones),
+    # on actors whose state is the whole object
+    from harness import pipelines, symbolic
+    pipelines.STATEFUL = symbolic.Whole
+    pipelines.HYPER = {'rate': 'at-training' if op == 'train' else 'current'}
+    PARAMS.clear()
     if op == 'serve':
-        answer = graphs.norm(pyfunc.Runner(instance, feed, sink).call(None))
+        raw = pyfunc.Runner(instance, feed, sink).call(None)
+        applied_params(raw, PARAMS)
+        answer = graphs.norm(raw)
         values.append(answer['args'][1] if answer['tag'] == 'app' and answer['id'] == SINK else answer)
     else:
         runner = rec_runner(values)(instance, feed, sink)
         bounds = {'none': (), 'upper': (None, 3), 'both': (1, 3)}[window if op == 'train' else 'none']
         getattr(runner, {'train': 'train', 'apply': 'apply', 'perftrack': 'eval_perftrack'}[op])(*bounds)
-    obs = {'values': values}
+    obs = {'values': values, 'params': sorted(PARAMS)}
     if op == 'train':
         release = fresh_directory(registry_root).get(PROJECT).get(RELEASE)
         gens = [int(g) for g in release.list()]
